@@ -417,7 +417,22 @@ func (c *VC) equal(st *State, a, b *Term, t types.Type) *Term {
 		if u.Info()&types.IsString != 0 {
 			return c.strEqual(a, b)
 		}
-		if _, ok := isFloat(u); ok {
+		if w, ok := isFloat(u); ok {
+			// comparison with the constant +0.0 is exact IEEE semantics on the bit pattern: equal
+			// to zero means +0 or -0 (a NaN is never equal); everything else stays uninterpreted
+			isZeroLit := func(t *Term) bool { return t.Val != nil && t.Val.Sign() == 0 }
+			if isZeroLit(a) || isZeroLit(b) {
+				x := a
+				if isZeroLit(a) {
+					x = b
+				}
+				ut := types.Typ[types.Uint32]
+				if w == 64 {
+					ut = types.Typ[types.Uint64]
+				}
+				signBit := c.numLit(new(big.Int).Lsh(big.NewInt(1), uint(w-1)), ut)
+				return mkOr(mkEq(x, c.numLit(big.NewInt(0), ut)), mkEq(x, signBit))
+			}
 			return c.uf("feq_"+sanitize(a.Sort.Name), sortBool, a, b)
 		}
 	case *types.Slice:
@@ -821,6 +836,7 @@ func (c *VC) assign(st *State, lhs ast.Expr, v *Term) {
 		if obj == nil {
 			return
 		}
+		c.monotoneCheck(st, l, obj, v)
 		c.writeVar(st, obj, v)
 	case *ast.StarExpr:
 		c.unsupportedf(l.Pos(), "store through %s", exprText(c.prog.fset, l))
@@ -870,3 +886,23 @@ func (c *VC) assign(st *State, lhs ast.Expr, v *Term) {
 	}
 }
 
+
+// monotoneCheck: `//@ monotone-false x` declares that the boolean local x only ever goes from true
+// to false (a "still fine" flag): every assignment must store a value that implies the old one.
+func (c *VC) monotoneCheck(st *State, id *ast.Ident, obj types.Object, v *Term) {
+	if c.ghost > 0 || len(c.frames) != 1 || st.dead() {
+		return
+	}
+	d := c.fn.Dir
+	if c.fn.Contract != nil {
+		d = c.fn.Contract.Dir
+	}
+	if d == nil || !d.MonotoneFalse[id.Name] || v.Sort != sortBool {
+		return
+	}
+	old, ok := st.env[obj]
+	if !ok || c.cur().boxed[obj] {
+		return
+	}
+	c.addObl("own/monotone", id.Name+" only goes from true to false", id.Pos(), st.pc, mkImplies(v, old))
+}
